@@ -1,6 +1,7 @@
 package main
 
 import (
+	"strings"
 	"fmt"
 	"github.com/go-i2p/common/key_certificate"
 	"reflect"
@@ -43,6 +44,109 @@ func callAllMethods(v interface{}) (panicked string) {
 	return
 }
 
+// callArgMethods invokes every exported method of v (and of *v) whose parameters are all byte slices,
+// strings, integers or booleans, with a few values of each (nil / empty / one short of, exactly and one
+// past the common key sizes; the ends of the integer ranges), after the argument-free ones. Methods
+// that change the value (Set*, Add*, Remove*, Replace*, Update*, Clear*) are left out: what they leave
+// behind for the other methods is a different question.
+var argBytes = [][]byte{nil, {}, make([]byte, 1), make([]byte, 31), make([]byte, 32), make([]byte, 33), make([]byte, 64), make([]byte, 128), make([]byte, 500)}
+var argInts = []int64{0, 1, -1, 7, 8, 255, 256, 65535, 65536, 1 << 31, -1 << 31}
+
+func callArgMethods(v interface{}) (panicked string) {
+	if v == nil {
+		return ""
+	}
+	seen := map[string]bool{}
+	try := func(rv reflect.Value) {
+		t := rv.Type()
+		for i := 0; i < t.NumMethod(); i++ {
+			m := t.Method(i)
+			n := m.Type.NumIn() - 1
+			if n < 1 || n > 2 || seen[m.Name] || m.Type.IsVariadic() {
+				continue
+			}
+			mut := false
+			for _, pre := range []string{"Set", "Add", "Remove", "Replace", "Update", "Clear", "Delete", "Append"} {
+				mut = mut || strings.HasPrefix(m.Name, pre)
+			}
+			if mut {
+				continue
+			}
+			var choices [][]reflect.Value
+			ok := true
+			for a := 1; a <= n && ok; a++ {
+				at := m.Type.In(a)
+				var vals []reflect.Value
+				switch {
+				case at.Kind() == reflect.Slice && at.Elem().Kind() == reflect.Uint8:
+					for _, b := range argBytes {
+						vals = append(vals, reflect.ValueOf(cp(b)).Convert(at))
+					}
+				case at.Kind() == reflect.String:
+					for _, x := range []string{"", "a", "host", "\xff"} {
+						vals = append(vals, reflect.ValueOf(x).Convert(at))
+					}
+				case at.Kind() >= reflect.Int && at.Kind() <= reflect.Uint64:
+					for _, x := range argInts {
+						vals = append(vals, reflect.ValueOf(x).Convert(at))
+					}
+				case at.Kind() == reflect.Bool:
+					vals = []reflect.Value{reflect.ValueOf(false).Convert(at), reflect.ValueOf(true).Convert(at)}
+				default:
+					ok = false
+				}
+				choices = append(choices, vals)
+			}
+			if !ok {
+				continue
+			}
+			seen[m.Name] = true
+			for _, a0 := range choices[0] {
+				second := []reflect.Value{{}}
+				if n == 2 {
+					second = choices[1]
+				}
+				for _, a1 := range second {
+					args := []reflect.Value{a0}
+					if n == 2 {
+						args = append(args, a1)
+					}
+					func() {
+						defer func() {
+							if r := recover(); r != nil && panicked == "" {
+								panicked = fmt.Sprintf("%s.%s(%v): %v", t.String(), m.Name, describeArgs(args), r)
+							}
+						}()
+						rv.Method(i).Call(args)
+					}()
+				}
+			}
+		}
+	}
+	rv := reflect.ValueOf(v)
+	try(rv)
+	if rv.Kind() == reflect.Ptr && !rv.IsNil() {
+		try(rv.Elem())
+	}
+	return
+}
+
+func describeArgs(args []reflect.Value) string {
+	var parts []string
+	for _, a := range args {
+		if a.Kind() == reflect.Slice {
+			if a.IsNil() {
+				parts = append(parts, "nil")
+			} else {
+				parts = append(parts, fmt.Sprintf("%d bytes", a.Len()))
+			}
+		} else {
+			parts = append(parts, fmt.Sprintf("%v", a.Interface()))
+		}
+	}
+	return strings.Join(parts, ", ")
+}
+
 // C04: no panic, no hang — parsers on arbitrary input and type codes; every exported
 // method of every accepted value.
 func runC04(c *Ctx) {
@@ -60,6 +164,8 @@ func runC04(c *Ctx) {
 				t1 := time.Now()
 				pm := callAllMethods(res.Val)
 				c.Check("accessors_return_normally", pm == "", p.Name, args, "", pm)
+				pa := callArgMethods(res.Val)
+				c.Check("accessors_return_normally", pa == "", p.Name, args, "", pa)
 				pf := callValueFuncs(res.Val)
 				c.Check("accessors_return_normally", pf == "", p.Name, args, "", pf)
 				c.Check("accessors_time_bounded", time.Since(t1) < deadline, p.Name, args, "", "accessors slow")
